@@ -150,7 +150,13 @@ func verifC04Host(name string, n, tail int) string {
 	if n < 0 {
 		return ""
 	}
-	h := verifString(name, n, "zq.")
+	// the request host also draws from a hexadecimal letter: "dd.d" passes the cheap
+	// IsProbablyIP character test without being an address ($denyallow, hostname requests)
+	alphabet := "zq."
+	if name == "host" {
+		alphabet = "zqd."
+	}
+	h := verifString(name, n, alphabet)
 	if n > 0 {
 		verifAssume(h[0] != '.' && h[n-1] != '.')
 	}
